@@ -624,7 +624,9 @@ def outcome : Scenario → Outcome
       else if hi - lo + 1 > maxDomainSize then .err .invalidDomain
       else .sol⟩
   /- props/table.rs constructor assertion -/
-  | .tableArity nv rowlen => ⟨none, if nv ≠ rowlen then .panic else .sol⟩
+  /- props/table.rs `Table::new` drops tuples of another arity (fix ade514e; it asserted before):
+     the single row is gone, no tuple is left -/
+  | .tableArity nv rowlen => ⟨none, if nv ≠ rowlen then .noSolution else .sol⟩
   /- validation.rs AllDifferent duplicate check -/
   | .allDiffDup dup => ⟨none, if dup then .err .invalidConstraint else .sol⟩
 
